@@ -257,7 +257,16 @@ def case_linear(fam, rep):
             mesh, L = problems.box_mesh(fam, rng)
             kind = "3d" if mesh.dim == 3 else "planestrain"
             field = problems.field_for(fam, mesh, kind)
-            bounds, lc = fem.dof.uniaxial(field, clamped=True, move=float(rng.uniform(-0.1, 0.1)))
+            mv = float(rng.uniform(-0.1, 0.1))
+            bounds, lc = fem.dof.uniaxial(field, clamped=True, move=mv)
+            if True:
+                # a further boundary that prescribes some of the moved unknowns once more (same value): unknowns selected by several
+                # boundaries are prescribed once
+                bounds = dict(bounds)
+                bounds["edge"] = fem.Boundary(field[0], fx=float(L[0]), fy=0.0, mode="and", skip=(0, 1, 1)[: mesh.dim], value=mv)
+                dof0_, dof1_ = fem.dof.partition(field, bounds)
+                lc = dict(dof0=dof0_, dof1=dof1_, ext0=fem.dof.apply(field, bounds, dof0_))
+                run.units["linear:overlapping-boundaries"] += 1
             if mesh.dim == 3:
                 umat = fem.LinearElastic(E=float(rng.uniform(1, 3)), nu=float(rng.uniform(0.1, 0.4)))
             else:
@@ -397,7 +406,7 @@ SPEC = {
                        "success:boundary-honoured:field2", "styles:no-ext0", "styles:constraint", "styles:converged-at-maxiter", "styles:parallel+solver",
                        "styles:no-items", "styles:array-newton", "styles:array-newton-raises", "success:continuation", "success:unload-to-zero", "linear:unload-one-iteration", "success:prescribed-values",
                        "success:reported-residual", "success:reassembly", "success:reassembly-settled", "success:fun", "success:commit",
-                       "solve:reduced-system", "solve:prescribed-increment", "linear:one-iteration", "linear:one-solve-counted", "failure:maxiter",
+                       "solve:reduced-system", "solve:prescribed-increment", "linear:one-iteration", "linear:one-solve-counted", "linear:overlapping-boundaries", "failure:maxiter",
                        "failure:no-commit", "failure:raises:ValueError"],
     "rule": ("boundary value problems on seeded interior-distorted box meshes (9 element families; 3D, plane strain, axisymmetric, mixed "
              "u/p/J, nearly-incompressible body; body force, point load, follower pressure), random tolerance 1e-12..1e-4, continuation "
